@@ -5,6 +5,7 @@ import UbxModel.Model.ValSetGet
     bits cleared followed by the *original* value bytes; 1–3 trailing bytes are dropped. -/
 namespace Ubx
 open Spec
+variable [KeyTable]
 
 /-- what the key/value area of a VALGET response looks like after decode + encode: for every pair (as long as at
     least four bytes remain) the canonical key id, then the value bytes as they were -/
